@@ -175,6 +175,15 @@ def caller_with_clash(text, clash):
     gobj = clash
     meth = clash.meth
     return probe_here(text)
+
+
+def probe_local(text, mine):
+    # the selector is written in a scope whose own local `gobj` hides the module global of that
+    # name: the local one is meant, as it would be for any expression written here
+    from ptera import probing
+
+    gobj = mine
+    return probing(text)
 '''
 
 CLASSES = ["Base", "Sub", "EqAll", "EqNoHash", "Falsy", "FalsyList", "Over"]
@@ -303,7 +312,11 @@ def _check_one(recv, pop, calls, sel, rec=None, prelude=None):
             # no env: the names are looked up where the selector is written (a helper called
             # from a function whose own locals gobj / meth are bound to something else)
             other = objs[(ti + 1) % len(objs)]
-            pr = glb["caller_with_clash"](text, other)
+            if path == "implicit" and (ti + len(calls)) % 2:
+                glb["gobj"] = other
+                pr = glb["probe_local"](text, objs[ti])
+            else:
+                pr = glb["caller_with_clash"](text, other)
         else:
             pr = probing(text, env=env)
         with pr as p:
@@ -386,19 +399,21 @@ class Outer:
 '''
 
 
-def check_private(target, k, v, rec=None):
+def check_private(target, k, v, rec=None, cname="Outer"):
     """Private (name-mangled) attributes in a method of a nested class, in a method defining a
     helper, and in that helper (a function nested in a method): probing must neither break the
     call nor miss the binding."""
     from ptera import probing
 
-    _, glb = PR.load(PRIVATE_SRC, name="Outer")
-    o = glb["Outer"](k)
+    # (the class name may start or end with underscores: Python strips only the leading ones
+    # when it mangles a private name)
+    _, glb = PR.load(PRIVATE_SRC.replace("Outer", cname).replace("Inner", "Inner" + cname[5:]), name=cname)
+    o = glb[cname](k)
     o.om(0)
     if target == "inner":
-        sel, env, call, want_w = "Outer.Inner.im > w", {"Outer": glb["Outer"]}, (lambda: o.inner.im(v)), v + k + 1
+        sel, env, call, want_w = f"{cname}.Inner{cname[5:]}.im > w", {cname: glb[cname]}, (lambda: o.inner.im(v)), v + k + 1
     elif target == "outer":
-        sel, env, call, want_w = "Outer.om > w", {"Outer": glb["Outer"]}, (lambda: o.om(v)), v + k + 1
+        sel, env, call, want_w = f"{cname}.om > w", {cname: glb[cname]}, (lambda: o.om(v)), v + k + 1
     else:
         sel, env, call, want_w = "h > w", {"h": o.last}, (lambda: o.last(v)), v + k
     got = []
@@ -420,14 +435,125 @@ def check_private(target, k, v, rec=None):
         raise PropertyViolation("events", f"private names, probing({sel!r}) with k={k} v={v}: returned {res}, events "
                                           f"{got}; expected {want_w} and [{want_w}]")
     if rec is not None:
-        rec.case(h64(repr(("private", target, k, v))), True, {"path:private-" + target},
+        rec.case(h64(repr(("private", target, k, v, cname))), True, {"path:private-" + target, "private-class:" + cname},
                  sample=lambda: {"selector": sel, "k": k, "v": v, "events": [want_w]})
 
 
+FACTORY_SRC = '''
+def make(base):
+    class K:
+        def __init__(self, k):
+            self.k = k
+
+        def read(self, v):
+            w = v + self.k + base
+            return w
+
+    return K
+
+
+def mkmeth(base):
+    def read(self, v):
+        w = v + self.k + base
+        return w
+
+    return read
+
+
+class M1:
+    def __init__(self, k):
+        self.k = k
+    read = mkmeth(100)
+
+
+class M2:
+    def __init__(self, k):
+        self.k = k
+    read = mkmeth(200)
+'''
+
+
+def check_factory(flavour, mode, calls, rec=None):
+    """Two classes whose method comes from one and the same `def` (a class factory called twice,
+    or a method factory): `A.read > w` and `B.read > w` are two different methods, each selector
+    observes the calls on instances of its own class only.  `calls` = [(0|1, k, v)...];
+    mode: 'nested' / 'nested-rev' two probes at once, 'one' one probe with both selectors, 'A' / 'B' one
+    class probed while both are called."""
+    from ptera import probing
+
+    _, glb = PR.load(FACTORY_SRC, name="make")
+    if flavour == "class-factory":
+        A, B = glb["make"](100), glb["make"](200)
+    else:
+        A, B = glb["M1"], glb["M2"]
+    env = {"A": A, "B": B}
+    objs = {}
+    want = {"A": [], "B": [], "res": []}
+    for which, k, v in calls:
+        objs.setdefault((which, k), (A, B)[which](k))
+        w = v + k + (100, 200)[which]
+        want["AB"[which]].append({"w": w, "self": (which, k)})
+        want["res"].append(w)
+    got = {"A": [], "B": [], "res": []}
+    ident = {id(o): key for key, o in objs.items()}
+
+    def sub(name):
+        return lambda d: got[name].append({"w": d["w"], "self": ident.get(id(d.get("self")), "?")})
+
+    def run():
+        for which, k, v in calls:
+            got["res"].append(objs[(which, k)].read(v))
+
+    try:
+        if mode in ("nested", "nested-rev"):
+            first, second = ("A", "B") if mode == "nested" else ("B", "A")
+            with probing(f"{first}.read(self) > w", env=env) as p1:
+                p1.subscribe(sub(first))
+                with probing(f"{second}.read(self) > w", env=env) as p2:
+                    p2.subscribe(sub(second))
+                    run()
+        elif mode == "one":
+            with probing("A.read(self) > w", "B.read(self) > w", env=env) as p:
+                p.subscribe(lambda d: got["AB"[ident.get(id(d.get("self")), (0,))[0]]].append(
+                    {"w": d["w"], "self": ident.get(id(d.get("self")), "?")}))
+                run()
+        else:
+            with probing(f"{mode}.read(self) > w", env=env) as p:
+                p.subscribe(sub(mode))
+                run()
+            want["AB".replace(mode, "")] = []
+    except BaseException as e:
+        if isinstance(e, (KeyboardInterrupt, SystemExit)):
+            raise
+        HY.force_global_clean()
+        raise PropertyViolation("run", f"{flavour}, mode {mode}, calls {calls}: raised {HY.describe_exc(e)}",
+                                extra={"bucket": "factory:" + HY.exc_bucket(e)})
+    finally:
+        if HY.global_state_problems():
+            HY.force_global_clean()
+        PR.forget(glb)
+    if got != want:
+        which = next(k for k in ("res", "A", "B") if got[k] != want[k])
+        raise PropertyViolation(
+            "events" if which != "res" else "result",
+            f"two classes sharing one method definition ({flavour}), mode {mode}, calls (class, k, v) {calls}: "
+            f"{'results' if which == 'res' else 'events of the selector through class ' + which} {got[which]}, expected {want[which]}")
+    if rec is not None:
+        both = len({c[0] for c in calls}) == 2
+        rec.case(h64(repr(("factory", flavour, mode, calls))), both, {"path:factory-" + flavour, "factory-mode:" + mode},
+                 sample=lambda: {"flavour": flavour, "mode": mode, "calls": calls[:6]})
+
+
 def replay(payload):
+    if payload.get("mode") == "factory":
+        try:
+            check_factory(payload["flavour"], payload["fmode"], [tuple(c) for c in payload["calls"]])
+        except PropertyViolation as v:
+            return [{"clause": v.clause, "detail": v.detail}]
+        return []
     if payload.get("mode") == "private":
         try:
-            check_private(payload["target"], payload["k"], payload["v"])
+            check_private(payload["target"], payload["k"], payload["v"], cname=payload.get("cname", "Outer"))
         except PropertyViolation as v:
             return [{"clause": v.clause, "detail": v.detail}]
         return []
@@ -444,9 +570,13 @@ def strategy():
 
     @st.composite
     def cases(draw):
+        if draw(st.integers(0, 19)) == 1:
+            return ("factory", draw(st.sampled_from(["class-factory", "method-factory"])),
+                    draw(st.sampled_from(["nested", "nested-rev", "one", "A", "B"])),
+                    draw(st.lists(st.tuples(st.integers(0, 1), st.integers(0, 2), st.integers(0, 5)), min_size=1, max_size=6)))
         if draw(st.integers(0, 19)) == 0:
             return ("private", draw(st.sampled_from(["inner", "outer", "helper"])), draw(st.integers(0, 5)),
-                    draw(st.integers(0, 5)))
+                    draw(st.integers(0, 5)), draw(st.sampled_from(["Outer", "Outer_", "Outer__", "Outer"])))
         recv = draw(st.sampled_from(["self", "me"]))
         n = draw(st.integers(2, 5))
         pop = [(draw(st.sampled_from(CLASSES + ["EqAll", "EqNoHash", "EqAll"])), draw(st.integers(0, 3))) for _ in range(n)]
@@ -495,14 +625,19 @@ def shard(cfg):
 
     def body(case):
         if case[0] == "private":
-            return check_private(*case[1:], rec=rec)
+            return check_private(*case[1:4], rec=rec, cname=case[4])
+        if case[0] == "factory":
+            return check_factory(*case[1:], rec=rec)
         check_case(*case, rec=rec)
 
     n, v, herr = hyp_search(strategy(), body, seed=cfg["seed"] * 1000 + cfg["shard"], max_examples=cfg["examples"], case_cpu_s=30.0)
     res = rec.result()
     if v is not None and v.case[0] == "private":
         res["violations"] = [violation_record(PROPERTY, v, {"mode": "private", "target": v.case[1], "k": v.case[2],
-                                                            "v": v.case[3]})]
+                                                            "v": v.case[3], "cname": v.case[4]})]
+    elif v is not None and v.case[0] == "factory":
+        res["violations"] = [violation_record(PROPERTY, v, {"mode": "factory", "flavour": v.case[1], "fmode": v.case[2],
+                                                            "calls": [list(c) for c in v.case[3]]})]
     elif v is not None:
         recv, pop, calls, sel = v.case
         res["violations"] = [violation_record(PROPERTY, v, {"recv": recv, "pop": pop, "calls": calls, "sel": list(sel)})]
